@@ -463,6 +463,22 @@ pub const C04U: ConcCheck = ConcCheck { sub: "conc-compute", mix: Mix::Compute, 
 pub const C04W: ConcCheck = ConcCheck { sub: "conc-crowd", mix: Mix::Crowd, max_threads: 130, ..C04C };
 pub const C04_ALL: [&ConcCheck; 8] = [&C04C, &C04R, &C04T, &C04Z, &C04D, &C04M, &C04U, &C04H];
 
+/* ------------------------------- C06 (after concurrent histories) ------------------------------- */
+
+/// A tree bin must still answer lookups in O(log n) comparisons after writers and readers contended
+/// for it (the state of its lock word decides whether readers may use the tree at all), migrated
+/// it, or converted it: counted after the run, key by key (`ExecOpts::cmp_bound`)
+fn c06c_judge(_prog: &Prog, out: &ConcOut) -> Result<(bool, Vec<(&'static str, u64)>), JudgeErr> {
+    base_judge("C06", out)?;
+    let (_, tr) = crossed(out);
+    let mut c = std_classes(out, 0);
+    c.push(("schedules_ending_with_a_tree_bin", (out.tree_bins_after > 0) as u64));
+    Ok((out.tree_bins_after > 0 && (out.parked || out.blocked || tr), c))
+}
+pub const C06T: ConcCheck = ConcCheck { asked: "C06", sub: "tree-conc", mix: Mix::TreeMove, max_threads: 3, max_ops: 3, opts: ExecOpts { cmp_bound: true, ..ExecOpts::DEFAULT }, judge: c06c_judge, mk_probe: NO_PROBE };
+pub const C06W: ConcCheck = ConcCheck { sub: "tree-crowd", mix: Mix::Crowd, max_threads: 130, ..C06T };
+pub const C06D: ConcCheck = ConcCheck { sub: "tree-drain", mix: Mix::Drain, ..C06T };
+
 /* ------------------------------- C08 ------------------------------- */
 
 fn c08_judge(prog: &Prog, out: &ConcOut) -> Result<(bool, Vec<(&'static str, u64)>), JudgeErr> {
